@@ -412,8 +412,14 @@ def rule_fuzz(evs):
 
 
 def c04(tier, seed, replay, keep):
+    def short_runs(binary, wd):
+        # a harness process started with -test.short
+        sc = scen.c04_short(tier, seed)
+        out = os.path.join(wd, "short.ndjson")
+        core.run_harness(binary, sc, out, STREAM_EVENTS, timeout=600, extra=("-test.short",))
+        return sc, [out]
     return engine_check("C04", tier, seed, replay, scen.c04, rule_replays, "4/C04", ASSUME_COMMON[:2], keep, mc=STREAM_MC, events=STREAM_EVENTS,
-                        module="StreamTrace", cfg=INV_CFG)
+                        module="StreamTrace", cfg=INV_CFG, more_traces=short_runs)
 
 
 def c13(tier, seed, replay, keep):
